@@ -46,6 +46,23 @@ def load_known(path: Optional[str] = None) -> Dict[str, str]:
     return out
 
 
+def _unresolved(test) -> bool:
+    """A guard the valuation cannot evaluate is benign when it only reads state the valuation leaves open (the rule then holds
+    for every value of that state).  It is NOT benign when it contains the un-inlined result of a helper call on self / super():
+    the path may be infeasible and the valuation cannot tell."""
+    import ast as _ast
+    for n in _ast.walk(test):
+        if isinstance(n, _ast.Call) and isinstance(n.func, _ast.Attribute):
+            v = n.func.value
+            if isinstance(v, _ast.Name) and v.id in ('self', 'cls'):
+                return True
+            if isinstance(v, _ast.Call) and isinstance(v.func, _ast.Name) and v.func.id == 'super':
+                return True
+        if isinstance(n, _ast.Name) and n.id.startswith('__raises_line_'):
+            return True
+    return False
+
+
 class Check:
     """One run of one property's rules."""
 
@@ -67,6 +84,31 @@ class Check:
         self.exhaustive: Optional[bool] = None
         self.extra: Dict[str, object] = {}
         self.only_key = only_key
+        self._focus = None
+
+    def focus(self, path=None, pe=None):
+        """The obligations judged next concern this path under this valuation.  A failure may only be reported for a path whose
+        guards all evaluate (definitely taken); a path that is merely not refuted (some guard unknown under the valuation, e.g.
+        after a helper was extracted) yields an analysis error instead of a verdict."""
+        self._focus = (path, pe) if path is not None else None
+
+    def _indefinite(self):
+        if self._focus is None:
+            return None
+        from .norm import ev3, formula
+        import ast as _ast
+        path, pe = self._focus
+        for c in path.conds():
+            fm = getattr(c, '_formula', None)
+            if fm is None:
+                fm = c._formula = formula(c.test)
+            try:
+                v = ev3(fm, pe.truth)
+            except Exception:  # noqa
+                v = None
+            if v is None and _unresolved(c.test):
+                return _ast.unparse(c.test)[:120]
+        return None
 
     # -- recording ---------------------------------------------------------
     def _rule(self, rule):
@@ -83,6 +125,12 @@ class Check:
             self.samples.append({'rule': rule, 'at': where, 'obligation': what, 'verdict': 'discharged'})
 
     def fail(self, rule: str, where: str, qual: str, construct: str, reason: str, **extra):
+        if 'fold.NoValue' in reason or 'fold.NoValue' in construct:
+            raise AnalysisError(rule, qual, f'not evaluable under the rule\'s valuation (shape not recognised), no verdict: {reason[:200]}')
+        unk = self._indefinite()
+        if unk is not None:
+            raise AnalysisError(rule, qual, f'guard `{unk}` cannot be evaluated under the rule\'s valuation, so the offending path is not known to be feasible: '
+                                            f'no verdict ({reason[:160]})')
         r = self._rule(rule)
         r['obligations'] += 1
         self.obligations += 1
